@@ -50,6 +50,7 @@ type prog struct {
 	showOrd []string
 	trip    map[string]*Ty // types needing send/recv helpers
 	tripOrd []string
+	rcvOnly map[string]bool // trip types that are only ever read back (no snd_ helper is emitted)
 	structs []*Ty
 	body    []string
 	extra   []string // extra top-level declarations
@@ -64,7 +65,7 @@ type prog struct {
 }
 
 func newProg(name string) *prog {
-	return &prog{name: name, show: map[string]*Ty{}, trip: map[string]*Ty{}, expect: map[string]string{},
+	return &prog{name: name, show: map[string]*Ty{}, trip: map[string]*Ty{}, rcvOnly: map[string]bool{}, expect: map[string]string{},
 		meta: map[string]*caseMeta{}, checks: map[string]bool{}}
 }
 
@@ -95,6 +96,17 @@ func (p *prog) needTrip(t *Ty) {
 	if _, ok := p.trip[k]; !ok {
 		p.trip[k] = t
 		p.tripOrd = append(p.tripOrd, k)
+	}
+	delete(p.rcvOnly, k)
+}
+
+// needRecv is needTrip for a type that is only read back (rcv_K), never sent from Go.
+func (p *prog) needRecv(t *Ty) {
+	k := t.Key()
+	_, had := p.trip[k]
+	p.needTrip(t)
+	if !had {
+		p.rcvOnly[k] = true
 	}
 }
 
@@ -147,7 +159,7 @@ func showFunc(t *Ty) string {
 	return b.String()
 }
 
-func tripFuncs(t *Ty) string {
+func tripFuncs(t *Ty, rcvOnly bool) string {
 	k, T := t.Key(), t.GoType()
 	s := `
 var got_K T
@@ -225,6 +237,10 @@ func rcv_K(q int, r *js.Object) T {
 	panic("bad recv path")
 }
 `
+	if rcvOnly {
+		i, j := strings.Index(s, "func snd_K("), strings.Index(s, "func rcv_K(")
+		s = s[:i] + s[j:]
+	}
 	s = strings.ReplaceAll(s, "_K", "_"+k)
 	// replace the type placeholder (stand-alone capital T tokens)
 	s = replaceTypeToken(s, T)
@@ -376,7 +392,7 @@ func (p *prog) source() map[string]string {
 		b.WriteString("\n")
 	}
 	for _, k := range p.tripOrd {
-		b.WriteString(tripFuncs(p.trip[k]))
+		b.WriteString(tripFuncs(p.trip[k], p.rcvOnly[k]))
 	}
 	for _, e := range p.extra {
 		b.WriteString(e)
